@@ -151,4 +151,50 @@ def run():
         else:
             c.nontriv((kind, orig[:200]))
             c.sample({'constructed_from': orig[:160], 'accessors': a[:160]}, limit=4)
+    # ---- the JSON constructors around the 65,535-byte tag-section limit: part lists whose LAST tag is empty / short /
+    # long, with section sizes 65,530..65,540, as Tags::from_json, inside Event::from_json and as a filter's values
+    jl, jm = [], []
+    EVHEAD = b'{"id":"' + b'11' * 32 + b'","pubkey":"' + b'22' * 32 + b'","created_at":5,"kind":1,"sig":"' + b'33' * 64 + b'","content":"c","tags":'
+    def tjson(ts):
+        return b'[' + b','.join(b'[' + b','.join(b'"' + s_ + b'"' for s_ in t) + b']' for t in ts) + b']'
+    for target in range(65530, 65541):
+        for tail in ([], [[]], [[], []], [[b'z']], [[b'']]):
+            base_sz = tags_size([[b'']] + tail)
+            n = target - base_sz
+            ts = [[b'a' * n]] + tail
+            assert tags_size(ts) == target
+            tx = tjson(ts)
+            jl.append('TGJ %s %d %d' % (hx(tx), 70000, rng.randrange(1, 1 << 40)))
+            jm.append(('tags', ts, target))
+            jl.append('EVJ %s %d %d' % (hx(EVHEAD + tx + b'}'), 70000 + 200, rng.randrange(1, 1 << 40)))
+            jm.append(('event', ts, target))
+    wj, mj = c.run_both(jl)
+    c.evaluations += len(jl)
+    accj, accm = [], []
+    for l, (kind, ts, target), a, b in zip(jl, jm, wj, mj):
+        cls = a.split(' ')[0]
+        c.count('json-%s:%s' % (kind, cls))
+        short = [l[:200] + '...' + l[-120:]]
+        if cls in ('panic', 'ABORT', 'HANG', 'GUARD'):
+            c.violation('oracle', '%s from_json did not return a value or error: %s' % (kind, a[:80]), short)
+            continue
+        if a.split(' ')[:3] != b.split(' ')[:3]:
+            c.violation('corr', '%s from_json near the limit: impl %s model %s' % (kind, a[:40], b[:40]), short, found=False)
+        if target > 65535 and cls == 'ok':
+            c.violation('oracle', '%s from_json accepted a tag section of %d bytes (the length field holds at most 65,535)' % (kind, target), short)
+            continue
+        if target <= 65535 and cls != 'ok':
+            c.violation('oracle', '%s from_json refused a tag section of %d bytes that fits' % (kind, target), short)
+            continue
+        if cls == 'ok':
+            n = int(a.split(' ')[2])
+            accj.append(('TGA ' if kind == 'tags' else 'EVA ') + a.split(' ')[3][:2 * n])
+            accm.append((kind, ts, short))
+    for l, (kind, ts, short), a in zip(accj, accm, c.worker.run(accj)):
+        t = a.split(' ')
+        got = t[2] if kind == 'tags' else (t[6] if len(t) > 6 else '?')
+        if t[0] != 'ok' or got != tags_tok(ts):
+            c.violation('oracle', 'a %s parsed from JSON near the size limit does not read back its tags' % kind, short)
+        else:
+            c.nontriv(('json-edge', kind, len(ts), tags_size(ts)))
     c.finish()
